@@ -9,7 +9,9 @@
    read off the source syntactically: the extractor lists, for every function of package compose
    reachable from runner.run, for every closure that takes a context (node functions, handlers,
    converters: built once, run per call) of compose, flow/agent/react, flow/agent/multiagent/host,
-   for flow/agent's option helpers and internal/callbacks' manager,
+   for flow/agent's option helpers and internal/callbacks' manager (since round 5 also the methods of
+   the checkPointer: the checkpoint STORE is the caller's and is reached through an interface, but
+   the checkPointer itself is part of the compiled record),
 
      assign / incdec / delete / copy / send / append   a store through (an append onto) an expression
                  whose root is not a local or per-run object: the receiver or a parameter of a
@@ -17,7 +19,24 @@
                  variable of the constructor captured by the closure, what a context carries, a
                  package-level variable — or a local bound to one of these, or a field of a per-run
                  object that refers to one (task.call, channelManager.successors, manager.handlers);
-     arg         shared data handed to a function that writes through that parameter;
+     (calls)     a function or method of the package that stores into the container of one of its own
+                 parameters (a slot of the slice / map, the variable behind the pointer, the backing
+                 array) is followed BY PROVENANCE (round 5), as if its body stood at the call site: the
+                 store is the caller's, into whatever it hands over there — nothing when that is an
+                 object the caller allocated itself or a per-run object, an effect of the caller when
+                 it refers to shared data, summarised in turn when it is the caller's own parameter;
+                 the first result of a function that returns (part of) a parameter's object / its
+                 receiver's / a package-level variable's refers to what the caller handed over.  So a
+                 loop body extracted into a private helper, or inlined again, leaves the table as it
+                 is.  Functions whose callers are not all known (entry points, exported functions,
+                 functions used as values) and stores THROUGH an element of a parameter are reported
+                 at the function itself, by the parameter's type;
+     call:<name> (round 5) a store that is not written as an assignment: a call of a function of another
+                 package that writes into what its first argument refers to (sort.Strings, sort.Slice,
+                 atomic.AddInt32 …) or of a method of a type of another package that modifies its
+                 receiver (sync.Map.Store / LoadOrStore / Delete, sync.Pool.Put, sync.Once.Do,
+                 bytes.Buffer.Write / Reset, list.PushBack …) on such a root — a memo in a sync.Map of
+                 the runner, a buffer kept in the checkPointer, an edge list sorted in place;
      link        a per-run object one of whose fields is made to refer to shared data;
      pkgvar      any mention of a package-level variable other than an error value made by errors.New /
                  fmt.Errorf (sentinels: compared with errors.Is, never written);
@@ -30,8 +49,9 @@
 
    Limits (trusted base): syntactic, no type checker; aliasing is followed through local bindings,
    range variables, link fields (by field name) and context values only, not through function
-   values, interfaces or results of calls (a call's result counts as fresh unless the callee is
-   a method of a package-level variable).  Definitions only. *)
+   values, interfaces or calls into other packages (the result of a call of a function of the
+   package is what the function's return statements say, by provenance; any other call's result
+   counts as fresh unless the callee is a method of a package-level variable).  Definitions only. *)
 From Eino Require Import Base.Util Model.Isolation.
 Local Open Scope string_scope.
 
@@ -66,7 +86,12 @@ Inductive verdict : Type :=
 | ReadOnly       (* nothing is stored: a sentinel error compared with errors.Is, a table that is only
                     read, a reference from a per-run object into the record                      *)
 | CallersLocal   (* the parameter written through is, at every call site on the run path, an object
-                    the calling run allocated itself (the "arg" effects would show a shared one)  *)
+                    the calling run allocated itself.  Until round 4 five effects carried this verdict
+                    by hand (calculateBranch's input copies, the three locals of run filled by
+                    resolveInterruptCompletedTasks, uniqueKeys' argument); since round 5 the extractor
+                    decides it itself at every call site (provenance of the argument) and reports such
+                    a store only where the object handed over is NOT the caller's own — the verdict
+                    remains for functions whose callers are not all known                          *)
 | BuildTime      (* the closure takes a context but is called by Compile, on objects of that call *)
 | Unreviewed.    (* not in the table: counts as a store into shared data                          *)
 
@@ -81,9 +106,14 @@ Definition reviewed_effects : list (effect * verdict) := [
   (Eff "callbacks:newManager"%string "link"%string CRecord "manager.handlers <- param(...Handler)"%string, ReadOnly);
   (Eff "callbacks:newManager"%string "link"%string CRecord "manager.runInfo <- param(*RunInfo)"%string, ReadOnly);
   (Eff "callbacks:newManager"%string "pkgvar"%string CPkg "GlobalHandlers"%string, ReadOnly);
+  (Eff "checkPointer.convertCheckPoint"%string "assign"%string CParam "param(map[string]any)[]"%string, CallersLocal);
+  (Eff "checkPointer.restoreCheckPoint"%string "assign"%string CParam "param(map[string]any)[]"%string, CallersLocal);
+  (Eff "convert"%string "pkgvar"%string CPkg "mappedFragmentConvertPair"%string, ReadOnly);
   (Eff "graphNode.beforeChildGraphCompile$closure"%string "assign"%string CRecord "captured(parameter key2SubGraphs)[]"%string, BuildTime);
   (Eff "host:addHostAgent$closure"%string "link"%string CParam "state.msgs <- param([]*schema.Message)"%string, ReadOnly);
-  (Eff "runner.calculateBranch"%string "assign"%string CParam "param([]any)[]"%string, CallersLocal);
+  (Eff "isMappedFragment"%string "pkgvar"%string CPkg "mappedFragmentConvertPair"%string, ReadOnly);
+  (Eff "pairWrittenToTarget"%string "pkgvar"%string CPkg "mappedFragmentConvertPair"%string, ReadOnly);
+  (Eff "restore"%string "pkgvar"%string CPkg "mappedFragmentConvertPair"%string, ReadOnly);
   (Eff "runner.createTasks"%string "link"%string CRecord "task.call <- runner.chanSubscribeTo[]"%string, ReadOnly);
   (Eff "runner.handleInterrupt"%string "link"%string CCaptured "checkpoint.State <- ctx.Value().state"%string, ReadOnly);
   (Eff "runner.handleInterruptWithSubGraphAndRerunNodes"%string "link"%string CCaptured "checkpoint.State <- ctx.Value().state"%string, ReadOnly);
@@ -93,12 +123,8 @@ Definition reviewed_effects : list (effect * verdict) := [
   (Eff "runner.initTaskManager"%string "link"%string CRecord "taskManager.needAll <- runner.eager"%string, ReadOnly);
   (Eff "runner.initTaskManager"%string "link"%string CRecord "taskManager.opts <- param(...Option)"%string, ReadOnly);
   (Eff "runner.initTaskManager"%string "link"%string CRecord "taskManager.runWrapper <- param(runnableCallWrapper)"%string, ReadOnly);
-  (Eff "runner.resolveInterruptCompletedTasks"%string "append"%string CParam "param(*[]string)"%string, CallersLocal);
-  (Eff "runner.resolveInterruptCompletedTasks"%string "assign"%string CParam "param(*[]string)"%string, CallersLocal);
-  (Eff "runner.resolveInterruptCompletedTasks"%string "assign"%string CRecord "param(map[string]*subGraphInterruptError)[]"%string, CallersLocal);
   (Eff "runner.restoreTasks"%string "link"%string CRecord "task.call <- runner.chanSubscribeTo[]"%string, ReadOnly);
-  (Eff "runner.restoreTasks"%string "link"%string CParam "task.option <- param(map[string][]any)[]"%string, ReadOnly);
-  (Eff "uniqueKeys"%string "append"%string CParam "param([]string)[:]"%string, CallersLocal)
+  (Eff "runner.restoreTasks"%string "link"%string CParam "task.option <- param(map[string][]any)[]"%string, ReadOnly)
 
 ].
 
